@@ -1,7 +1,10 @@
 package props
 
 import (
+	"context"
 	"fmt"
+	"io"
+	"net/http"
 	"strings"
 	"testing"
 
@@ -166,10 +169,54 @@ func c04Check(c *ev.Collector, k c04Case, baseline wireObs) {
 	}
 }
 
+// c04DoFails: the transport fails before any response arrives (connection
+// closed without an answer, reset, ...): the call must fail with a coded error.
+func c04DoFails(t *testing.T, c *ev.Collector) {
+	errs := map[string]error{"eof": io.EOF, "unexpected": io.ErrUnexpectedEOF, "transport": memhttp.ErrTransport}
+	idx := 0
+	for _, p := range AllProtos {
+		for _, kind := range AllKinds {
+			for _, js := range []bool{false, true} {
+				for name, e := range errs {
+					idx++
+					if !ev.Mine(idx) {
+						continue
+					}
+					key := fmt.Sprintf("do-fails/%s/%s/json=%v/%s", p, kind, js, name)
+					c.Case(key, true)
+					Bubble(t, func() {
+						tr := &memhttp.Transport{Handler: http.NotFoundHandler(), Proto: 2, SyncCloseReq: true, FailDo: e}
+						cl := NewClient(tr, Cfg{Proto: p, JSON: js, Comp: CompDefault, Kind: kind, HTTP: 2})
+						var res CallResult
+						g := Guarded(func() { res = RunCall(context.Background(), cl, kind, [][]byte{{1}}, nil) }, tr)
+						c.AddTransitions(2)
+						c.AddStates(2)
+						c.AddTraces(1)
+						tags := []string{"proto=" + p.String(), "kind=" + kind.String(), "do-fails", "end=" + name}
+						switch {
+						case g.Hung || g.Panicked:
+							c.Violation("TestC04", "terminates", "hang-or-panic", tags, key, "%s: hung=%v panic=%v\n%s", key, g.Hung, g.Panic, g.Stack)
+							BailIfStuck(c, g)
+						case res.Err == nil:
+							c.Violation("TestC04", "success-needs-terminator", "clean-success", tags, key, "%s: the transport failed before any response (%v) but the call succeeded with %s", key, e, shortMsgs(res.Msgs))
+							c.Outcome("violation")
+						case CodeOfErr(res.Err) == 0:
+							c.Violation("TestC04", "coded-error", "uncoded", tags, key, "%s: failure is not a coded non-OK error: %v", key, res.Err)
+							c.Outcome("violation")
+						default:
+							c.Outcome("failed:" + CodeOfErr(res.Err).String())
+						}
+					})
+				}
+			}
+		}
+	}
+}
+
 func TestC04(t *testing.T) {
 	c := ev.New("C04")
 	defer func() { _ = c.Finish() }()
-	c.SetRule("crash-point / fault enumeration: every body of the corpus of valid request and response bodies (see C03) x every cut offset 0..len(body) x terminal answer {clean EOF, io.ErrUnexpectedEOF, transport error} x {answer on a separate read, answer together with the last data} x {HTTP trailers delivered, dropped} (gRPC); oracle: a response cut before its terminator or a failed transport makes the call fail with a coded non-OK error, delivered messages are a prefix of those sent, nothing hangs (bubble) or panics, the complete body gives the uncut outcome; a request body that failed or stopped inside an envelope never gives the handler a clean end of stream or an OK answer; distinct = (body, offset, answer, placement, trailers); non-trivial = cut before the end or non-EOF answer")
+	c.SetRule("crash-point / fault enumeration: every body of the corpus of valid request and response bodies (see C03) x every cut offset 0..len(body) x terminal answer {clean EOF, io.ErrUnexpectedEOF, transport error} x {answer on a separate read, answer together with the last data} x {HTTP trailers delivered, dropped} (gRPC); plus HTTPClient.Do failing before any response with each answer; oracle: a response cut before its terminator or a failed transport makes the call fail with a coded non-OK error, delivered messages are a prefix of those sent, nothing hangs (bubble) or panics, the complete body gives the uncut outcome; a request body that failed or stopped inside an envelope never gives the handler a clean end of stream or an OK answer; distinct = (body, offset, answer, placement, trailers); non-trivial = cut before the end or non-EOF answer")
 	c.Assume("faults are injected at the io.Reader the library reads from; unary Connect bodies cut with a clean EOF are different complete bodies and are not judged")
 	thorough := ev.Thorough()
 	if ev.ReplayFile() != "" {
@@ -186,6 +233,7 @@ func TestC04(t *testing.T) {
 	var corpus []wireBody
 	Bubble(t, func() { corpus = captureCorpus(thorough) })
 	c.Bound("corpus_bodies", len(corpus))
+	c04DoFails(t, c)
 	idx := 0
 	for _, w := range corpus {
 		var base wireObs
